@@ -75,7 +75,10 @@ def cases(draw, tier):
     return {"config": name, "env": env, "scheme": draw(schemes()), "dataset": ds,
             "at_most_one": draw(st.sampled_from([True, True, False])), "rng": draw(st.integers(0, 9999)),
             # one case in three: the Dataset object reached these rankings through an in-place mutation
-            "via_mutation": draw(mutate.via_strategy(ds["rankings"], p=3))}
+            "via_mutation": draw(mutate.via_strategy(ds["rankings"], p=3)),
+            # what the algorithm instance did before: nothing, or a run on a COMPLETE / an incomplete dataset under the
+            # same penalties (its answers about a scheme must not depend on what it saw first)
+            "prelude": draw(st.sampled_from([None, None, "complete", "complete", "incomplete"]))}
 
 
 def check(case, ctx):
@@ -87,6 +90,13 @@ def check(case, ctx):
                    for k in gen.DYADIC_FACTORS)
     with configs.solver_env(case["env"]):
         alg = lib.must(make, name)
+        if case.get("prelude"):
+            pre = [[[1], [2, 3], [4]], [[4, 1], [2], [3]]] if case["prelude"] == "complete" else [[[1], [2, 3]], [[3], [4]]]
+            try:
+                with lib.quiet():
+                    alg.compute_consensus_rankings(lib.mk_dataset(pre), lib.mk_scheme(scheme), True)
+            except Exception:  # noqa  (a refusal of the prelude is not the subject)
+                pass
         pred = lib.must(alg.is_scoring_scheme_relevant_when_incomplete_rankings, s)
         if not isinstance(pred, bool):
             raise Violation("%s.is_scoring_scheme_relevant_when_incomplete_rankings returned %r (%s), not a bool" % (
